@@ -74,3 +74,32 @@ Proof.
     destruct (tag_at_kind _ _ _ _ _ Hpe); subst; destruct Hk; discriminate.
   - destruct (tag_at_kind _ _ _ _ _ Hpe); subst; destruct Hk; discriminate.
 Qed.
+
+(* ---- references / rename: every reported occurrence of an account or a commodity ---- *)
+Lemma rng_in_text_places text rr : rng_in_text text rr -> prange_places text (to_proto rr).
+Proof.
+  intros (t & (A & B & _) & ->). apply to_proto_places; cbn [r_start r_end]; [exists (tk_pos t)|exists (tk_end t)]; auto.
+Qed.
+
+Theorem account_and_commodity_hits_are_places text j errs : parse text = Some (j, errs) ->
+  (forall name incl r, In r (account_hits name incl j) -> prange_places text r) /\
+  (forall sym incl r, sym <> [] -> In r (commodity_hits sym incl j) -> prange_places text r).
+Proof.
+  intro H. pose proof (parse_ranges_in_text text j errs H) as Q.
+  destruct (parse_entry_ranges_in_text text j errs H) as (_ & _ & D).
+  split.
+  - intros name incl r Hr. unfold account_hits in Hr. apply in_app_or in Hr as [Hr|Hr].
+    + destruct incl; [|destruct Hr]. apply in_flat_map in Hr as (d & Id & Hd). specialize (D d Id).
+      destruct d; try (destruct Hd; fail). destruct (beq name0 name); [|destruct Hd]. destruct Hd as [<-|[]].
+      destruct D as [[A B] _]. apply to_proto_places; assumption.
+    + apply in_flat_map in Hr as (t & It & Ht). apply in_flat_map in Ht as (p & Ip & Hp).
+      destruct (beq (po_acct p) name); [|destruct Hp]. destruct Hp as [<-|[]].
+      destruct (Q t It) as [_ Pq]. destruct (Pq p Ip) as (A & _). apply rng_in_text_places. exact A.
+  - intros sym incl r Hne Hr. unfold commodity_hits in Hr. apply in_app_or in Hr as [Hr|Hr].
+    + destruct incl; [|destruct Hr]. apply in_flat_map in Hr as (d & Id & Hd). specialize (D d Id).
+      destruct d; try (destruct Hd; fail). destruct (beq (c_sym c) sym) eqn:E; [|destruct Hd]. destruct Hd as [<-|[]].
+      destruct D as [[E0|A] _]; [apply beq_eq in E; congruence|apply rng_in_text_places; exact A].
+    + apply in_flat_map in Hr as (t & It & Ht). apply in_flat_map in Ht as (p & Ip & Hp).
+      destruct (po_amount p) as [a|] eqn:Ea; [|destruct Hp]. destruct (beq (c_sym (a_com a)) sym) eqn:E; [|destruct Hp]. destruct Hp as [<-|[]].
+      destruct (Q t It) as [_ Pq]. destruct (Pq p Ip) as (_ & B & _). destruct (B a Ea) as [E0|A]; [apply beq_eq in E; congruence|apply rng_in_text_places; exact A].
+Qed.
